@@ -72,6 +72,27 @@ theorem rle_roundtrip_run (depth : List Nat) (length cap : Nat) (syms extras : L
       rw [List.length_take]; omega
 
 
+/-- `BrotliWriteHuffmanTree` writes at most `length` entries, so with the 704-entry
+arrays of `BrotliStoreHuffmanTree` it cannot run off their end for any alphabet
+of at most 704 symbols: the model never takes its panic branch. -/
+theorem rle_never_panics (depth : List Nat) (length cap : Nat) (hl : length ≤ depth.length)
+    (hc : length ≤ cap) (h64 : depth.length < 2 ^ 64) :
+    ∃ syms extras, writeHuffmanTree depth length cap = .ok (syms, extras) ∧
+      syms.length = extras.length ∧ syms.length ≤ length := by
+  unfold writeHuffmanTree
+  have hlt : (depth.take length).length = length := by rw [List.length_take]; omega
+  have h1 := Lemmas.HuffmanRle.trim_length_le (depth.take length)
+  have h2 := Lemmas.HuffmanRle.writeLoop_length (rleSwitches (depth.take length)).1
+    (rleSwitches (depth.take length)).2 _ (trimTrailingZeros (depth.take length)) rfl
+    (by unfold u64; omega) 8
+  have h3 : (writeHuffmanTreeWith (rleSwitches (depth.take length)).1
+      (rleSwitches (depth.take length)).2 (depth.take length)).length ≤ length := by
+    unfold writeHuffmanTreeWith; omega
+  simp only [show ¬ length > depth.length by omega, ↓reduceIte,
+    show ¬ (writeHuffmanTreeWith (rleSwitches (depth.take length)).1
+      (rleSwitches (depth.take length)).2 (depth.take length)).length > cap by omega]
+  exact ⟨_, _, rfl, by simp, by simpa using h3⟩
+
 /-! ## 2. the bit patterns are the canonical assignment -/
 
 /-- `BrotliConvertBitDepthsToSymbols(depth, len, bits)` never panics on a depth
